@@ -63,7 +63,7 @@ static Obs run_in(bloc::Context& ctx, Capture& cap, bloc::Executable* exe) {
 
 struct C14 : Profile {
   const char* id() const override { return "C14"; }
-  long budget(const std::string& tier) const override { return tier == "thorough" ? 60000 : 3000; }
+  long budget(const std::string& tier) const override { return tier == "thorough" ? 60000 : 5000; }
   bool fork_per_run() const override { return true; }
   std::string rule() const override {
     return "plan = generated program (functions, recursion, tables, tuples, handled/unhandled errors, vf fault points) + 2..8 clone tasks + "
